@@ -71,7 +71,7 @@ func genC20(seed uint64, run int, tier string) Scenario {
 		sc.Prod = append(sc.Prod, QOp{Op: "enq"})
 	}
 	for i := 0; i < n-np; i++ {
-		sc.Cons = append(sc.Cons, QOp{Op: pick(r, "deq", "deq", "deqall", "requeue", "depth")})
+		sc.Cons = append(sc.Cons, QOp{Op: pick(r, "deq", "deq", "deq", "deqall", "requeue", "requeue2", "depth")})
 	}
 
 	return sc
@@ -211,6 +211,22 @@ func runC20(env *Env, s Scenario) {
 					nreq++
 					q.Requeue(b)
 					record(1, qIn{"requeue", string(b)}, call, qOut{})
+				case "requeue2":
+					// put the last two chunks back, the later one first, so that they are re-read in
+					// their original order: two put-backs are pending at once
+					if last == nil || len(got) < 2 {
+						continue
+					}
+					b2, b1 := got[len(got)-1], got[len(got)-2]
+					got = got[:len(got)-2]
+					last = nil
+					nreq += 2
+					q.Requeue(b2)
+					record(1, qIn{"requeue", string(b2)}, call, qOut{})
+					yield("c20.cons")
+					call = seq.Add(1)
+					q.Requeue(b1)
+					record(1, qIn{"requeue", string(b1)}, call, qOut{})
 				case "depth":
 					n := q.GetDepth()
 					record(1, qIn{Op: "depth"}, call, qOut{N: n})
@@ -315,7 +331,7 @@ func runC20Long(env *Env, sc *C20) {
 	q := util.NewQueue()
 	var model []string
 	id, deqs := 0, 0
-	last := ""
+	last, prev := "", ""
 	env.Res.Nontrivial = true
 	env.Res.Shape = fmt.Sprintf("long n=%d", sc.Long)
 	env.Res.SchedDigest = fmt.Sprintf("L%016x", sc.SchedSeed)
@@ -345,23 +361,30 @@ func runC20Long(env *Env, sc *C20) {
 				return
 			}
 			if b != nil {
-				last = string(b)
+				prev, last = last, string(b)
 			}
 		case x < 88:
 			b := q.DequeueAll()
 			want := strings.Join(model, "")
 			deqs += len(model)
 			model = nil
+			last, prev = "", ""
 			if string(b) != want {
 				env.Fail("not-lossless-fifo", "", "operation %d: dequeue-all returned %d bytes, reference %d", i, len(b), len(want))
 
 				return
 			}
 		case x < 93:
-			if last != "" {
+			if last != "" && prev != "" && x == 92 {
+				// both of the last two chunks go back, the later one first
+				q.Requeue([]byte(last))
+				q.Requeue([]byte(prev))
+				model = append([]string{prev, last}, model...)
+				last, prev = "", ""
+			} else if last != "" {
 				q.Requeue([]byte(last))
 				model = append([]string{last}, model...)
-				last = ""
+				last, prev = "", ""
 			}
 		default:
 			if d := q.GetDepth(); d != len(model) {
